@@ -1,0 +1,222 @@
+//! Verification hooks.
+//!
+//! Everything in this module is only compiled with the cargo feature `verif-hooks`.
+//! It gives an external verification harness access to a few crate-private building blocks
+//! (chunker, crypto framing, pack header codec, in-memory index) and allows to install a
+//! callback which is invoked between the stages of the packer pipeline.
+//! Nothing in here changes the behaviour of the library unless a callback is installed.
+
+use std::{
+    io::Read,
+    num::NonZeroU32,
+    sync::{Arc, RwLock},
+};
+
+use bytes::Bytes;
+
+use crate::{
+    backend::{
+        WriteBackend,
+        decrypt::{DecryptBackend, DecryptReadBackend, DecryptWriteBackend},
+    },
+    blob::{BlobId, BlobType},
+    chunker::ChunkIter,
+    crypto::{CryptoKey, aespoly1305::Key},
+    error::{ErrorKind, RusticError, RusticResult},
+    index::{
+        IndexEntry, ReadIndex,
+        binarysorted::{Index, IndexCollector, IndexType},
+    },
+    repofile::{
+        ConfigFile,
+        indexfile::{IndexBlob, IndexPack},
+        packfile::{PackHeader, PackHeaderRef},
+    },
+};
+
+/// Chunk `reader` exactly as a backup with the given `config` would do.
+///
+/// # Errors
+///
+/// * If the chunker parameters in the config are refused
+pub fn chunk_iter<R: Read + Send>(
+    config: &ConfigFile,
+    reader: R,
+    size_hint: usize,
+) -> RusticResult<impl Iterator<Item = RusticResult<Vec<u8>>>> {
+    ChunkIter::from_config(config, reader, size_hint)
+}
+
+/// Encrypt `data` with the 64-byte `key` (nonce || ciphertext || mac)
+///
+/// # Errors
+///
+/// * If encryption fails
+pub fn encrypt(key: &[u8; 64], data: &[u8]) -> RusticResult<Vec<u8>> {
+    Key::from_slice(key).encrypt_data(data)
+}
+
+/// Decrypt `data` with the 64-byte `key`
+///
+/// # Errors
+///
+/// * If the data is too short or the MAC check fails
+pub fn decrypt(key: &[u8; 64], data: &[u8]) -> RusticResult<Vec<u8>> {
+    Key::from_slice(key).decrypt_data(data)
+}
+
+/// The file / blob framing of the repository format (compression + encryption)
+#[derive(Debug, Clone)]
+pub struct Codec(DecryptBackend<Key>);
+
+impl Codec {
+    /// Create a new codec. `be` is only stored, never accessed by the codec methods.
+    #[must_use]
+    pub fn new(be: Arc<dyn WriteBackend>, key: &[u8; 64], zstd: Option<i32>) -> Self {
+        let mut dbe = DecryptBackend::new(be, Key::from_slice(key));
+        dbe.set_zstd(zstd);
+        Self(dbe)
+    }
+
+    /// Encode a repository file (snapshot, index, config)
+    ///
+    /// # Errors
+    ///
+    /// * If compression or encryption fails
+    pub fn encode_file(&self, data: &[u8]) -> RusticResult<Vec<u8>> {
+        self.0.verif_encrypt_file(data)
+    }
+
+    /// Decode a repository file (snapshot, index, config)
+    ///
+    /// # Errors
+    ///
+    /// * If decryption or decompression fails
+    pub fn decode_file(&self, data: &[u8]) -> RusticResult<Vec<u8>> {
+        self.0.verif_decrypt_file(data)
+    }
+
+    /// Encode a blob; returns the stored bytes, the plaintext length and the uncompressed length (if compressed)
+    ///
+    /// # Errors
+    ///
+    /// * If compression or encryption fails
+    pub fn encode_blob(&self, data: &[u8]) -> RusticResult<(Vec<u8>, u32, Option<NonZeroU32>)> {
+        self.0.process_data(data)
+    }
+
+    /// Decode a blob
+    ///
+    /// # Errors
+    ///
+    /// * If decryption or decompression fails or the uncompressed length doesn't match
+    pub fn decode_blob(
+        &self,
+        data: &[u8],
+        uncompressed_length: Option<NonZeroU32>,
+    ) -> RusticResult<Bytes> {
+        self.0
+            .read_encrypted_from_partial(data, uncompressed_length)
+    }
+}
+
+/// Parse the (decrypted) binary pack header
+///
+/// # Errors
+///
+/// * If the binary representation is invalid
+pub fn pack_header_from_binary(data: &[u8]) -> RusticResult<Vec<IndexBlob>> {
+    PackHeader::from_binary(data)
+        .map(PackHeader::into_blobs)
+        .map_err(|err| {
+            RusticError::with_source(ErrorKind::Internal, "Reading pack header failed.", err)
+        })
+}
+
+/// Generate the binary pack header (not encrypted)
+///
+/// # Errors
+///
+/// * If the binary representation cannot be written
+pub fn pack_header_to_binary(blobs: &[IndexBlob]) -> RusticResult<Vec<u8>> {
+    PackHeaderRef(blobs).to_binary().map_err(|err| {
+        RusticError::with_source(ErrorKind::Internal, "Writing pack header failed.", err)
+    })
+}
+
+/// (header size, pack size) as computed from the given blobs
+#[must_use]
+pub fn pack_header_sizes(blobs: &[IndexBlob]) -> (u32, u32) {
+    let header = PackHeaderRef(blobs);
+    (header.size(), header.pack_size())
+}
+
+/// Which kind of in-memory index to build
+#[derive(Debug, Clone, Copy, PartialEq, Eq)]
+pub enum IndexMode {
+    /// Full entries for tree and data blobs
+    Full,
+    /// Full entries for tree blobs, only ids for data blobs
+    DataIds,
+    /// Full entries for tree blobs, nothing for data blobs
+    OnlyTrees,
+}
+
+/// The in-memory index built from the `packs` sections of index files
+#[derive(Debug)]
+pub struct IndexHandle(Index);
+
+impl IndexHandle {
+    /// Build the index from the given packs (in the given order)
+    #[must_use]
+    pub fn new(packs: Vec<IndexPack>, mode: IndexMode) -> Self {
+        let mut collector = IndexCollector::new(match mode {
+            IndexMode::Full => IndexType::Full,
+            IndexMode::DataIds => IndexType::DataIds,
+            IndexMode::OnlyTrees => IndexType::OnlyTrees,
+        });
+        collector.extend(packs);
+        Self(collector.into_index())
+    }
+
+    /// Look up a blob
+    #[must_use]
+    pub fn get_id(&self, tpe: BlobType, id: &BlobId) -> Option<IndexEntry> {
+        self.0.get_id(tpe, id)
+    }
+
+    /// Presence query
+    #[must_use]
+    pub fn has(&self, tpe: BlobType, id: &BlobId) -> bool {
+        self.0.has(tpe, id)
+    }
+
+    /// Total size of packs of the given type
+    #[must_use]
+    pub fn total_size(&self, tpe: BlobType) -> u64 {
+        self.0.total_size(tpe)
+    }
+
+    /// Turn the index back into packs
+    #[must_use]
+    pub fn into_packs(self) -> Vec<IndexPack> {
+        self.0.into_iter().collect()
+    }
+}
+
+type SchedCallback = Arc<dyn Fn(&'static str) + Send + Sync>;
+
+static SCHED_CALLBACK: RwLock<Option<SchedCallback>> = RwLock::new(None);
+
+/// Install (or remove) a callback which is called at the `sched_point`s of the packer pipeline.
+pub fn set_sched_callback(callback: Option<Arc<dyn Fn(&'static str) + Send + Sync>>) {
+    *SCHED_CALLBACK.write().unwrap() = callback;
+}
+
+/// A point between two pipeline stages. Does nothing unless a callback is installed.
+pub fn sched_point(tag: &'static str) {
+    let callback = SCHED_CALLBACK.read().unwrap().clone();
+    if let Some(callback) = callback {
+        callback(tag);
+    }
+}
